@@ -983,6 +983,7 @@ type hdSessionDigest struct {
 	Backend   int
 	Kind      string // client, internal, federation, virtual
 	User      string
+	AuthUser  string
 	Room      string // internal room key "" if none
 	RoomSess  string
 	Conn      int // index of the attached connection, -1 none
@@ -1016,6 +1017,7 @@ type hdDigest struct {
 	ExpectHello int
 	Subjects  map[string]int
 	McuOpen   []string
+	McuPending int
 }
 
 func (s *hdSystem) backendIndex(b *Backend) int {
@@ -1084,6 +1086,7 @@ func (s *hdSystem) digest() *hdDigest {
 		}
 		switch cs := sess.(type) {
 		case *ClientSession:
+			sd.AuthUser = cs.AuthUserId()
 			sd.RoomSess = cs.RoomSessionId()
 			sd.Conn = s.connIndex(cs.GetClient())
 			cs.mu.Lock()
@@ -1153,5 +1156,8 @@ func (s *hdSystem) digest() *hdDigest {
 	for _, o := range s.mcu.open() {
 		d.McuOpen = append(d.McuOpen, fmt.Sprintf("%s %d %s %s", o.Kind, o.Tok, o.Owner, o.Stream))
 	}
+	s.mcu.mu.Lock()
+	d.McuPending = len(s.mcu.pending)
+	s.mcu.mu.Unlock()
 	return d
 }
